@@ -45,6 +45,8 @@ def rt(kind, obj, absfn, printer, parser, src):
         obj2, exc = guarded(lambda: parser(text))
         ev["exc"] = exc
         ev["text"] = ab.enc(text)
+        if kind in ("dfa", "nfa", "pda", "tm"):
+            ev["plines"] = printed_lines(kind, text)
         if exc == "none":
             ev["parsed"] = absfn(obj2)
             # history: the first parse result is changed in place, then the SAME text is parsed again - the
@@ -59,6 +61,28 @@ def rt(kind, obj, absfn, printer, parser, src):
             except Exception:
                 pass
     return ev
+
+
+KEYWORDS = {"dfa": {"input_symbols"}, "nfa": {"input_symbols", "epsilon"},
+            "pda": {"input_symbols", "stack_symbols", "epsilon"},
+            "tm": {"input_symbols", "tape_symbols", "blank", "accept", "reject"}}
+
+
+def printed_lines(kind, text):
+    """the printed text as description lines (the line format of Text.tla / Printer.tla)"""
+    from . import c17
+    out = []
+    for ln in text.split("\n"):
+        w = ln.split()
+        if not w:
+            continue
+        if w[0] in ("states", "final", "initial"):
+            out.append({"k": w[0], "t": [ab.enc(x) for x in w[1:]]})
+        elif w[0] in KEYWORDS[kind]:
+            out.append({"k": "kw", "t": [ab.enc(x) for x in w]})
+        else:
+            out.append({"k": "tr", "t": [ab.enc(x) for x in w[:2]] + [c17.lab(kind, x) for x in w[2:]]})
+    return out
 
 
 def _clobber(x):
@@ -218,9 +242,16 @@ def redrive(src):
 MODELS = {"quick": [("RoundTrip", "RoundTrip_dfa.cfg", "print_dfa then the line parser + builder model, all DFA(2,{a,b}) x all "
                      "label orders", {"allow_untaken": True}),
                     ("RoundTrip", "RoundTrip_nfa.cfg", "print_nfa then parser, all NFAs on 2 states over {a} with epsilon",
-                     {"allow_untaken": True})],
+                     {"allow_untaken": True}),
+                    ("RoundTripPT", "RoundTripPT_pda.cfg", "print_pda then parser + PDABuilder, all PDAs on 2 states over {a} / "
+                     "{X} with <= 2 moves, all label orders", {"allow_untaken": True}),
+                    ("RoundTripPT", "RoundTripPT_tm.cfg", "print_tm then parser + TMBuilder, all TMs on 2 states over {a} with "
+                     "<= 2 moves", {"allow_untaken": True})],
           "thorough": [("RoundTrip", "RoundTrip_dfa3.cfg", "all DFA(3,{a,b})", {"allow_untaken": True}),
-                       ("RoundTrip", "RoundTrip_nfa2ab.cfg", "all NFAs on 2 states over {a,b} with epsilon", {"allow_untaken": True})]}
+                       ("RoundTrip", "RoundTrip_nfa2ab.cfg", "all NFAs on 2 states over {a,b} with epsilon", {"allow_untaken": True}),
+                       ("RoundTripPT", "RoundTripPT_pda_t.cfg", "all PDAs on 2 states with <= 3 moves", {"allow_untaken": True}),
+                       ("RoundTripPT", "RoundTripPT_tm_t.cfg", "all TMs on 3 states over {a}, tape {a,x,blank}, <= 2 moves",
+                        {"allow_untaken": True})]}
 RULE = ("DFAs (DFA(3,{a,b}) under five naming schemes, random incl. empty alphabet and digits), NFAs (NFA(2,{a,b}), "
         "random; epsilon in {U+03B5,_,e}), PDAs (2-state universe, hand-written, random), TMs (all 169 one-state "
         "machines also with empty input alphabet, random with blank in {_,U+25A1,B}), regular expressions (all trees "
